@@ -341,12 +341,20 @@ class Driver:
         for func, args in self.gw.tasks.queue:
             if getattr(func, "__self__", None) is self.gw and getattr(func, "__name__", "") == "logic":
                 out.append(["L", self.lines.get(args[0], -1)])
-            else:
+            elif self.pure_job(func):
                 try:
                     out.append(["E", self._cmd(func(*args))])
                 except Exception as exc:  # pylint: disable=broad-except
                     out.append(["E", [-99999] * 5 + [self.tok("job raises " + type(exc).__name__)]])
+            else:
+                # a job of a kind the library does not queue today: it is not run just to look at it (it may have effects)
+                out.append(["E", [-99999] * 5 + [self.tok("job " + getattr(func, "__name__", type(func).__name__))]])
         return out
+
+    @staticmethod
+    def pure_job(func):
+        """Jobs whose result can be computed for the projection without changing anything: Message.encode and str."""
+        return func is str or (getattr(func, "__name__", "") == "encode" and type(getattr(func, "__self__", None)).__name__ == "Message")
 
     def state(self):
         ota = self.gw.tasks.ota
